@@ -5,6 +5,7 @@ package main
 import (
 	"fmt"
 	"os"
+	"strconv"
 	"go/types"
 	"sort"
 	"strings"
@@ -94,6 +95,7 @@ type Object struct {
 	Arr     *Term
 	Entries []MapEntry
 	Epoch   int
+	Seq     ObjID // allocation sequence number on its path (for collecting callee temporaries)
 	Site    string
 	Input   bool // byte array that is a caller-supplied input buffer (ghost)
 }
@@ -112,13 +114,16 @@ type State struct {
 	next    ObjID
 	globals map[*ssa.Global]ObjID
 	epoch   int
+	ctx     []string       // call chain of the activation being executed: "callsite:loop iterations of the caller at the call"
+	cur     string         // loop-iteration signature of the activation being executed
+	occ     map[string]int // allocations seen so far per (call chain, site)
 	writes  []WriteRec
 	allocs  []*Term // sizes requested by make() in own code since last reset (ghost)
 	steps   int
 }
 
 func NewState() *State {
-	return &State{known: map[int]bool{}, eqs: map[int]*Term{}, heap: map[ObjID]*Object{}, next: 1, globals: map[*ssa.Global]ObjID{}}
+	return &State{known: map[int]bool{}, eqs: map[int]*Term{}, heap: map[ObjID]*Object{}, next: 1, globals: map[*ssa.Global]ObjID{}, occ: map[string]int{}}
 }
 
 func (s *State) Fork() *State {
@@ -135,6 +140,12 @@ func (s *State) Fork() *State {
 	}
 	n.writes = append([]WriteRec(nil), s.writes...)
 	n.allocs = append([]*Term(nil), s.allocs...)
+	n.ctx = append([]string(nil), s.ctx...)
+	n.cur = s.cur
+	n.occ = make(map[string]int, len(s.occ))
+	for k, v := range s.occ {
+		n.occ[k] = v
+	}
 	return n
 }
 
@@ -242,8 +253,30 @@ func (s *State) concOr(t *Term) *Term {
 	return t
 }
 
+// objIntern gives every (call chain, allocation site, occurrence) its own object identity,
+// the SAME on every path: paths that skipped some other allocation still agree on the
+// identities of the objects they both created, so they can be merged at join points.
+var objIntern = map[string]ObjID{}
+
 func (s *State) Alloc(o *Object) ObjID {
-	id := s.next
+	var sb strings.Builder
+	for _, c := range s.ctx {
+		sb.WriteString(c)
+		sb.WriteByte('/')
+	}
+	sb.WriteString(s.cur)
+	sb.WriteByte('|')
+	sb.WriteString(o.Site)
+	key := sb.String()
+	n := s.occ[key]
+	s.occ[key] = n + 1
+	key += "#" + strconv.Itoa(n)
+	id, ok := objIntern[key]
+	if !ok {
+		id = ObjID(len(objIntern) + 1)
+		objIntern[key] = id
+	}
+	o.Seq = s.next
 	s.next++
 	o.Epoch = s.epoch
 	s.heap[id] = o
@@ -977,9 +1010,18 @@ func mergeOutcomes(entryLen int, a, b *Outcome) (*Outcome, bool) {
 		npc = append(npc, d)
 	}
 	st := &State{pc: npc, known: map[int]bool{}, eqs: map[int]*Term{},
-		heap: heap, next: a.St.next, globals: a.St.globals, epoch: a.St.epoch, writes: a.St.writes, steps: a.St.steps + b.St.steps}
+		heap: heap, next: a.St.next, globals: a.St.globals, epoch: a.St.epoch, writes: a.St.writes, steps: a.St.steps + b.St.steps,
+		ctx: a.St.ctx, cur: a.St.cur, occ: make(map[string]int, len(a.St.occ))}
 	if b.St.next > st.next {
 		st.next = b.St.next
+	}
+	for k, v := range a.St.occ {
+		st.occ[k] = v
+	}
+	for k, v := range b.St.occ {
+		if v > st.occ[k] {
+			st.occ[k] = v
+		}
 	}
 	for k, v := range a.St.known {
 		if bv, ok := b.St.known[k]; ok && bv == v {
@@ -1167,10 +1209,17 @@ func (s *State) collect(from ObjID, ret Value) {
 	if s.next <= from {
 		return
 	}
+	isNew := func(id ObjID) bool {
+		if id >= 1<<29 {
+			return false
+		}
+		o, ok := s.heap[id]
+		return ok && o.Seq >= from
+	}
 	live := map[ObjID]bool{}
 	var stack []ObjID
 	mark := func(id ObjID) {
-		if id >= from && id < 1<<29 && !live[id] {
+		if isNew(id) && !live[id] {
 			live[id] = true
 			stack = append(stack, id)
 		}
@@ -1179,7 +1228,7 @@ func (s *State) collect(from ObjID, ret Value) {
 		return
 	}
 	for id, o := range s.heap {
-		if id < from || id >= 1<<29 {
+		if !isNew(id) {
 			if !objectRefs(o, mark) {
 				return
 			}
@@ -1195,12 +1244,11 @@ func (s *State) collect(from ObjID, ret Value) {
 		}
 	}
 	for id := range s.heap {
-		if id >= from && id < 1<<29 && !live[id] {
+		if isNew(id) && !live[id] {
 			delete(s.heap, id)
 		}
 	}
 }
-
 
 // checkSlices (debug): every generic slice's window lies inside its backing array
 func (s *State) checkSlices(where string) {
